@@ -206,10 +206,29 @@ def harness_bin(release=False):
 
 
 def harness_run(mode, cases_file, release=False, timeout=1800, extra=None):
-    cmd = [harness_bin(release), mode, cases_file] + (extra or [])
-    p = subprocess.run(cmd, stdout=subprocess.PIPE, stderr=subprocess.PIPE, timeout=timeout, env=ENV,
-                       text=True, errors="replace")
-    return p.returncode, p.stdout, p.stderr
+    """runs the harness; exit status 3 means "a watchdog expired in the last case printed": the process
+    is restarted on the remaining cases so that abandoned (spinning) threads do not accumulate"""
+    all_out, all_err = [], []
+    text = open(cases_file).read()
+    blocks = re.findall(r"^case .*?^end$", text, flags=re.S | re.M)
+    pending = blocks
+    rounds = 0
+    while True:
+        rounds += 1
+        cf = cases_file if rounds == 1 else cases_file + ".rest"
+        if rounds > 1:
+            open(cf, "w").write("\n".join(pending) + "\n")
+        cmd = [harness_bin(release), mode, cf] + (extra or [])
+        p = subprocess.run(cmd, stdout=subprocess.PIPE, stderr=subprocess.PIPE, timeout=timeout, env=ENV,
+                           text=True, errors="replace")
+        all_out.append(p.stdout)
+        all_err.append(p.stderr)
+        if p.returncode != 3 or rounds > 2000:
+            return p.returncode, "".join(all_out), "".join(all_err)
+        done = len(re.findall(r"^end$", p.stdout, flags=re.M))
+        pending = pending[done:]
+        if not pending:
+            return 0, "".join(all_out), "".join(all_err)
 
 
 def parse_harness(out):
